@@ -276,8 +276,12 @@ func c16Run(seed uint64, idx, n int, enabled []string, ops []c16Op, cnt *Counter
 		codes := make([]int, w.nacc)
 		refusedByGuard, otherAccepted := 0, 0
 		for b := 0; b < w.nacc; b++ {
+			w.signerMismatch = ""
 			cls, err, cctx := w.attempt(op, b)
 			out.evals++
+			if w.signerMismatch != "" {
+				setFail(i, "transaction-signer-is-the-authenticated-account", "signer-binding-mismatch:"+c16Handler[op.Kind], w.signerMismatch)
+			}
 			if b == op.P && op.Kind == "earnwd" && cls == ClassOk {
 				eo.dust = w.earnDust(op, eo, v, cctx)
 				if eo.dust {
